@@ -247,6 +247,7 @@ class Inliner:
         self.funcs: Dict[str, _Info] = {}
         self.unknown: Dict[str, _Info] = {}
         self.done: List[str] = []
+        self.bases: Dict[str, List[str]] = {}
         self._collect(tree.body, None)
         if baseline is not None:
             for q, inf in self.funcs.items():
@@ -260,6 +261,7 @@ class Inliner:
                 if q not in self.funcs:
                     self.funcs[q] = _Info(n, cls)
             elif isinstance(n, ast.ClassDef) and cls is None:
+                self.bases[n.name] = [b.id for b in n.bases if isinstance(b, ast.Name)]
                 self._collect(n.body, n.name)
             elif isinstance(n, (ast.If, ast.Try)):
                 for fld in ("body", "orelse", "finalbody"):
@@ -271,9 +273,18 @@ class Inliner:
         if isinstance(f, ast.Name) and f.id in self.unknown and self.unknown[f.id].cls is None:
             return f.id, self.unknown[f.id], False
         if isinstance(f, ast.Attribute) and isinstance(f.value, ast.Name) and f.value.id in ("self", "cls") and cls:
-            q = f"{cls}.{f.attr}"
-            if q in self.unknown:
-                return q, self.unknown[q], True
+            seen, todo = set(), [cls]
+            while todo:
+                c = todo.pop(0)
+                if c in seen:
+                    continue
+                seen.add(c)
+                q = f"{c}.{f.attr}"
+                if q in self.funcs and q not in self.unknown:
+                    return None  # resolved to a known (baseline) method first
+                if q in self.unknown:
+                    return q, self.unknown[q], True
+                todo += self.bases.get(c, [])
         return None
 
     def _inlinable(self, q: str, inf: _Info, caller_q: str) -> bool:
